@@ -232,10 +232,13 @@ impl Run {
             self.id, self.tier.name(), self.states, self.transitions, self.traces_validated, self.evaluations,
             self.distinct.len(), self.violations, self.known, wall, self.outcomes
         );
-        if !self.machinery_errors.is_empty() {
-            2
-        } else if self.violations > 0 {
+        // a violation is reported as such even when a vacuity gate tripped as well
+        // (a broken subject often starves a gate); a run with machinery errors and
+        // no violation is never a verdict
+        if self.violations > 0 {
             1
+        } else if !self.machinery_errors.is_empty() {
+            2
         } else {
             0
         }
